@@ -25,6 +25,7 @@ RULE = (
     "of the same kind was parsed and listed) gives the same list. Non-trivial = >= 1 disk and >= 1 non-disk device."
     " The VMX dictionary also as the encrypted part of an encrypted configuration (unlocked directly or after a failed attempt); TAB characters between key and '='; OVF File / Disk elements with same-named attributes of foreign namespaces."
 )
+RULE += ' Round 10: line-boundary characters inside VMX values; handle closed before listing; the same VMX text parsed again after the caller edited the first attr; CDATA; an OVF 2 twin loaded first; OVF empty disks and drives without medium; VMX entries that only begin like device keys (model = device-key grammar).'
 ASSUMPTIONS = [
     "VMX values have no leading/trailing spaces or quotes (the dictionary format strips them) and every device key has a property part",
     "VMX devices are not marked present = FALSE together with a file name (the statement does not say how those count)",
